@@ -1,7 +1,7 @@
 (* C19 — Persisted version records round-trip and keep their on-disk format.
    Statements only; proofs are [exact <lemma of CodecProofs>]. Bytes are N < 256. *)
 From Coq Require Import List NArith.
-From FsDb Require Import Codec CodecProofs.
+From FsDb Require Import Codec CodecProofs CodecRepo.
 Import ListNotations.
 Open Scope N_scope.
 
@@ -58,9 +58,28 @@ Example C19_golden :
   = Some ([2;1;0;0;0;0;0;0] ++ repeat 0 16 ++ [1;2;3;4;5;6;7;8;9;10;11;12;13;14;15;16] ++ [107;49]).
 Proof. vm_compute. reflexivity. Qed.
 
+(* ---- the glue around the codec: repository/file Set and GetAll over the key-ordered store ---- *)
+(* records with pairwise different content ids, stored one by one or inside one key-value transaction, are exactly what
+   GetAll returns: nothing lost, nothing altered, nothing invented - for any number of records, any keys (empty included) *)
+Theorem C19_set_getall_roundtrip :
+  forall rs out, NoDup (map r_cid rs) -> run_batch rs = Some out ->
+    (forall r, In r rs <-> In r out) /\ length out = length (map r_cid out).
+Proof. exact batch_roundtrip. Qed.
+
+Theorem C19_set_getall_defined : forall rs, forallb wf_rec rs = true -> exists out, run_batch rs = Some out.
+Proof. exact batch_defined. Qed.
+
+(* GetAll decodes every stored value independently of the others *)
+Theorem C19_getall_decodes_each :
+  forall m, kv_ok m -> exists rs, repo_get_all m = Some rs /\ map marshal rs = map (fun kv => Some (snd kv)) m /\ map r_cid rs = map fst m.
+Proof. exact get_all_decodes. Qed.
+
 Print Assumptions C19_roundtrip.
 Print Assumptions C19_marshal_defined_iff_wf.
 Print Assumptions C19_layout.
 Print Assumptions C19_total_and_rejects_short.
 Print Assumptions C19_decode_then_encode.
 Print Assumptions C19_uuid_roundtrip.
+Print Assumptions C19_set_getall_roundtrip.
+Print Assumptions C19_set_getall_defined.
+Print Assumptions C19_getall_decodes_each.
